@@ -402,7 +402,17 @@ def expand(fn, call, target=None):
         return None
     assigned = _stores(body, bound)
     names, exprs, pro = {}, {}, []
+    same = None
+    if target and not isinstance(target, list) and isinstance(
+            res, ast.Name) and res.id in bound and isinstance(
+                bound[res.id], ast.Name) and bound[res.id].id == target:
+        # x = helper(x, ...): the helper works on, rebinds and returns the
+        # caller's own variable
+        same = res.id
+        names[same] = target
     for p, a in bound.items():
+        if p == same:
+            continue
         if _simple_arg(a) and p not in assigned:
             exprs[p] = a
         else:
@@ -430,6 +440,96 @@ def expand(fn, call, target=None):
     new_body = [rn.visit(copy_node(s)) for s in body]
     new_res = rn.visit(copy_node(res)) if res is not None else None
     return pro + new_body, new_res
+
+
+def generator_body(fn):
+    """Statements of a new generator function that only yields values
+    (no return value, no send/yield-expression use), else None."""
+    if fn.decorator_list or fn.args.vararg or fn.args.kwarg or \
+            fn.args.posonlyargs:
+        return None
+    body = _body_without_doc(fn)
+    ys = [n for n in _own_walk(body) if isinstance(n, (ast.Yield,
+                                                       ast.YieldFrom))]
+    if not ys or any(isinstance(n, ast.YieldFrom) for n in ys):
+        return None
+    for n in _own_walk(body):
+        if isinstance(n, ast.Return) and n.value is not None:
+            return None
+        if isinstance(n, (ast.Global, ast.Nonlocal, ast.Await)):
+            return None
+        if isinstance(n, ast.Yield) and not (isinstance(
+                getattr(n, '_p', None), ast.Expr)):
+            pass
+    # every yield is an expression statement of its own
+    for st in _own_walk(body):
+        for fld, val in ast.iter_fields(st):
+            vals = val if isinstance(val, list) else [val]
+            for v in vals:
+                if isinstance(v, ast.Yield) and not isinstance(st, ast.Expr):
+                    return None
+    if any(isinstance(n, ast.Return) for n in _own_walk(body)):
+        return None
+    for n in ast.walk(fn):
+        if isinstance(n, (ast.FunctionDef, ast.Lambda)) and n is not fn:
+            return None
+    return body
+
+
+class _YieldToAdd(ast.NodeTransformer):
+    def __init__(self, target, method):
+        self.target = target
+        self.method = method
+
+    def visit_Expr(self, node):
+        if isinstance(node.value, ast.Yield):
+            v = node.value.value if node.value.value is not None else \
+                ast.Constant(value=None)
+            call = ast.Call(func=ast.Attribute(
+                value=ast.Name(id=self.target, ctx=ast.Load()),
+                attr=self.method, ctx=ast.Load()), args=[v], keywords=[])
+            return ast.copy_location(ast.Expr(value=call), node)
+        return node
+
+
+def expand_collected(fn, call, kind, target):
+    """``target = set(gen(...))`` / ``list(gen(...))`` for a new generator
+    function: the collection is created empty and the generator's body runs
+    in place with each ``yield e`` turned into ``target.add(e)`` /
+    ``target.append(e)``."""
+    body = generator_body(fn)
+    if body is None:
+        return None
+    bound = _bind_args(fn, call)
+    if bound is None:
+        return None
+    _COUNTER[0] += 1
+    k = _COUNTER[0]
+    assigned = _stores(body, bound)
+    names, exprs, pro = {}, {}, []
+    for p, a in bound.items():
+        if _simple_arg(a) and p not in assigned:
+            exprs[p] = a
+        else:
+            nm = '%s__i%d' % (p, k)
+            names[p] = nm
+            asg = ast.Assign(targets=[ast.Name(id=nm, ctx=ast.Store())],
+                             value=copy_node(a))
+            pro.append(ast.copy_location(asg, call))
+    for nm in assigned:
+        if nm not in names and nm != target:
+            names[nm] = '%s__i%d' % (nm, k)
+    if target in assigned:
+        return None
+    rn = _Rename(names, exprs)
+    ya = _YieldToAdd(target, 'add' if kind == 'set' else 'append')
+    new_body = [ya.visit(rn.visit(copy_node(s))) for s in body]
+    init = ast.Assign(
+        targets=[ast.Name(id=target, ctx=ast.Store())],
+        value=ast.Call(func=ast.Name(id=kind, ctx=ast.Load()), args=[],
+                       keywords=[]))
+    ast.copy_location(init, call)
+    return pro + [init] + new_body
 
 
 def _expr_bodied(fn):
@@ -668,11 +768,29 @@ def _expand_stmt(st, defs, cms, owner):
                             finalbody=[])
                 ast.copy_location(t, st)
                 return [t]
+    # target = set(gen(...)) / list(gen(...)) for a new generator function
+    if isinstance(st, ast.Assign) and len(st.targets) == 1 and isinstance(
+            st.targets[0], ast.Name) and isinstance(
+                st.value, ast.Call) and isinstance(
+                    st.value.func, ast.Name) and st.value.func.id in (
+                        'set', 'list') and len(st.value.args) == 1 and \
+            not st.value.keywords and isinstance(
+                st.value.args[0], ast.Call) and isinstance(
+                    st.value.args[0].func, ast.Name) and \
+            st.value.args[0].func.id in defs:
+        gfn = defs[st.value.args[0].func.id]
+        ex = expand_collected(gfn, st.value.args[0], st.value.func.id,
+                              st.targets[0].id)
+        if ex is not None:
+            return ex
     calls = _calls_in_stmt(st, defs)
     for call in calls:
         fn = defs[call.func.id if isinstance(call.func, ast.Name)
                   else call.func.attr]
         if fn.name in cms or _is_cm(fn):
+            continue
+        if any(isinstance(n, (ast.Yield, ast.YieldFrom))
+               for n in _own_walk(fn.body)):
             continue
         # do not expand a helper inside itself
         whole = isinstance(st, (ast.Expr, ast.Assign, ast.AnnAssign,
@@ -714,6 +832,9 @@ def _expand_stmt(st, defs, cms, owner):
         stmts, res = ex
         if whole and tgt and isinstance(res, ast.Name) and res.id == tgt:
             return stmts or [ast.copy_location(ast.Pass(), st)]
+        if whole and tgt and isinstance(res, ast.Name) and isinstance(
+                st, ast.Assign) and res.id == tgt:
+            return stmts
         if whole:
             if isinstance(st, ast.Expr):
                 tail = []
